@@ -125,6 +125,20 @@ CHECKS["C18"] = dict(
          "with equal seeds and re-runs under a second PYTHONHASHSEED in a child interpreter."),
    note=TB + "Samplers are observed only through the sequence of values they return.  The cached evaluator is the reference semantics (C11); grammar membership of samples is C09; program/type equality is structural on ground well-typed terms (C16).  Negative counts and negative max_tries are outside the model; termination of the outer while True is not claimed (explicit out-of-fuel result); reproduce_dataset is not modelled; PRNG quality is not a subject.",
    design="5/C18")
+CHECKS["C15"] = dict(
+   technique="Coq proof of executable models of auto_type (tokenizer + stack machine) and of str(program)/DSL.parse_program + extracted-model/implementation correspondence",
+   text=("Theorems (Props/C15.v, closed under the global context, unbounded): every well-formed expression of the documented type notation (names, "
+         "'a, 'a[...] restrictions, parentheses incl. redundant ones, postfix generics, optional, unions, right-nested arrows), with any number of "
+         "blanks at every allowed place, parses to the type it denotes (C15_type_expr); documented t -> auto_type (show_type style t) = t for every "
+         "printing style (C15_type_roundtrip); n-ary arrows are right-nested (C15_function_type); the parser models never run out of fuel "
+         "(C15_*_parser_total); for every DSL parse_program (show p) = resolve p, the program with each primitive replaced by the first one of that "
+         "name (C15_program_resolved), hence with unique names the round trip returns p with the same type (C15_program_roundtrip), and with repeated "
+         "names it fails (C15_same_name_refuted: known finding, type-directed parsing is not a small repair); C15_type_pinned_refuted exhibits the "
+         "tokenizer defect fixed in /repo.  Each run compares the extracted models with the code on ~1500 random type expressions, show_type outputs, "
+         "malformed texts, and every program of several abstract DSLs and compiled grammars (incl. after instantiate_polymorphic_types / "
+         "instantiate_constants), structurally and by == / type."),
+   note=TB + "ASCII text only, U+0020 as the blank.  format(value) is modelled for int, bool, None and lists of those; var<i> for digit strings only; names are interned injectively (proved).  Malformed input: only a silently wrong result counts, differing error behaviour does not.  auto_parse_program, infix generics beyond the correspondence, and non-ASCII text are not modelled.",
+   design="5/C15")
 NOT_YET = {}
 def main():
     props = [json.loads(l) for l in open(os.path.join(V, "properties.jsonl"))]
